@@ -766,7 +766,9 @@ func (p CPath) untestedErrors(inModule func(*ssa.Function) bool, modPath string)
 						}
 					}
 				case *ssa.Call:
-					handled = true
+					if !errInspection(x, errv) {
+						handled = true
+					}
 				case *ssa.MakeInterface, *ssa.Phi:
 					// flows on; phis are resolved per path above
 				}
@@ -955,7 +957,9 @@ func (p CPath) failedErrorsOpt(inModule func(*ssa.Function) bool, modPath string
 					handedOn = true
 				}
 			case *ssa.Call:
-				handedOn = true
+				if !errInspection(x, errv) {
+					handedOn = true
+				}
 			case *ssa.MakeInterface, *ssa.Phi:
 				_ = x
 			}
@@ -970,6 +974,9 @@ func (p CPath) failedErrorsOpt(inModule func(*ssa.Function) bool, modPath string
 						handedOn = true
 					}
 				case *ssa.Call:
+					if errInspection(x, nil) {
+						break
+					}
 					for _, a := range x.Call.Args {
 						if isErrorType(a.Type()) && p.Upto(occs[j].Seg).resolvesThrough(occs[j].Ctx, a, errv) {
 							handedOn = true
@@ -978,12 +985,26 @@ func (p CPath) failedErrorsOpt(inModule func(*ssa.Function) bool, modPath string
 				}
 			}
 		}
-		all = append(all, errCall{call, failed && !handedOn})
+		all = append(all, errCall{call, oc.Ctx, failed && !handedOn})
 	}
 	// a failure followed by another exchange on the path is a fallback or a retry: what the
-	// path reports is owed to the later call, which is judged in its turn
+	// path reports is owed to the later call, which is judged in its turn — provided the later
+	// call is another call site (or the same helper entered from another place): the next turn
+	// of the loop the failed call sits in does something else (the next entity, the next
+	// record), it does not make up for the failure
 	for k, ec := range all {
-		if ec.failed && (strict || k == len(all)-1) {
+		if !ec.failed {
+			continue
+		}
+		excused := false
+		if !strict {
+			for _, later := range all[k+1:] {
+				if later.call != ec.call || later.ctx != ec.ctx {
+					excused = true
+				}
+			}
+		}
+		if !excused {
 			out = append(out, ec.call)
 		}
 	}
@@ -992,7 +1013,21 @@ func (p CPath) failedErrorsOpt(inModule func(*ssa.Function) bool, modPath string
 
 type errCall struct {
 	call   *ssa.Call
+	ctx    *FCtx
 	failed bool
+}
+
+// errInspection: the call only looks at the error (errors.Is/As/Unwrap, err.Error()) — that
+// is neither examining it against nil nor handing it on.
+func errInspection(call *ssa.Call, errv ssa.Value) bool {
+	switch calleeName(&call.Call) {
+	case "errors.Is", "errors.As", "errors.Unwrap":
+		return true
+	}
+	if call.Call.IsInvoke() && call.Call.Method.Name() == "Error" && (errv == nil || call.Call.Value == errv) {
+		return true
+	}
+	return false
 }
 
 // nilFound: what the path found when it last compared v (or something that resolves to v
